@@ -739,13 +739,21 @@ pub fn parse_strace(log: &str, dir: &Path, initial: FsSim) -> (Vec<Sys>, Vec<Str
         if text.starts_with("+++") || text.starts_with("---") { continue; }
         if text.ends_with("<unfinished ...>") {
             let t = text.trim_end_matches("<unfinished ...>").to_string();
-            unfinished.insert(pid, t);
+            // a descriptor is released when close() is ENTERED: another thread's open may be logged
+            // as returning the same number before this close is logged as resumed
+            if let Some(r) = t.strip_prefix("close(") {
+                if let Some(fd) = fd_num(r) { fds.remove(&fd); }
+                unfinished.insert(pid, "\u{1}".to_string());
+            } else {
+                unfinished.insert(pid, t);
+            }
             continue;
         }
         if text.starts_with("<... ") {
             if let Some(pos) = text.find("resumed>") {
                 let tail = text[pos + 8..].to_string();
                 let head = unfinished.remove(&pid).unwrap_or_default();
+                if head == "\u{1}" { continue; }
                 text = format!("{head}{tail}");
             }
         }
@@ -1008,6 +1016,9 @@ pub fn record(exe: &Path, args: &[String], dir: &Path, initial: FsSim, scratch: 
     let text = std::fs::read(&log).map_err(|e| format!("strace log: {e}"))?;
     let log_bytes = text.len() as u64;
     let text = String::from_utf8_lossy(&text).to_string();
+    if std::env::var("MVCRASH_KEEP_LOG").is_ok() {
+        let _ = std::fs::copy(&log, "/tmp/mvcrash-last.log");
+    }
     let _ = std::fs::remove_file(&log);
     let (ops, warnings, raw_lines) = parse_strace(&text, dir, initial.clone());
     Ok(Recording {
@@ -1244,14 +1255,17 @@ pub fn classify_write(file_before: &[u8], off: u64, data: &[u8], next_is_footer_
 /// the begin of the step, t = another inode (staging file), d = directory
 pub fn canon_step(ops: &[Sys], begin: usize, end: usize, sim_at_begin: &FsSim, name: &str) -> Vec<String> {
     let mut sim = sim_at_begin.clone();
-    let orig = sim.dir.get(name).copied();
+    let mut orig = sim.dir.get(name).copied();
     let mut out = vec![];
-    let tgt = |ino: usize| -> &'static str { if Some(ino) == orig { "o" } else { "t" } };
     for i in begin..end.min(ops.len()) {
         let s = &ops[i];
+        if let (None, Sys::Create { name: n, ino }) = (orig, s) {
+            if n == name { orig = Some(*ino); }
+        }
+        let tgt = |ino: usize| -> &'static str { if Some(ino) == orig { "o" } else { "t" } };
         match s {
             Sys::Mark(_) => {}
-            Sys::Create { name: n, ino } => out.push(format!("create.{}", if n == name { "o".to_string() } else { tgt(*ino).to_string() })),
+            Sys::Create { ino, .. } => out.push(format!("create.{}", tgt(*ino))),
             Sys::Write { ino, off, data } => {
                 let next_footer = match ops.get(i + 1) {
                     Some(Sys::Write { ino: i2, data: d2, off: o2 }) if i2 == ino && d2.len() == 56 && d2.starts_with(b"MV2FOOT!") && *o2 == off + data.len() as u64 => Some(le64(d2, 8)),
